@@ -20,6 +20,22 @@ def isBorder (m : SMap) (n : Nat) : Prop :=
 
 instance (m : SMap) (n : Nat) : Decidable (isBorder m n) := by unfold isBorder; infer_instance
 
+/-- the list helpers as transformers of the abstract map (manual §5.5; `n` is the length of the list window):
+    `table.insert(t, pos, v)` "inserts element v at position pos, shifting up other elements to open space";
+    a position outside `1 … n` is a plain store. -/
+def SMap.insertAt (m : SMap) (n : Nat) (pos : Int) (v : OVal) : SMap :=
+  if pos ≤ 0 ∨ pos > n then m.set (.int pos) v
+  else fun k => match k with
+    | .int j => if pos < j ∧ j ≤ (n : Int) + 1 then m (.int (j - 1)) else if j = pos then v else m k
+    | _ => m k
+
+/-- `table.remove(t, pos)` "removes the element at position pos, shifting down other elements to close the
+    space"; the last position is erased. -/
+def SMap.removeAt (m : SMap) (n : Nat) (pos : Int) : SMap := fun k =>
+  match k with
+  | .int j => if pos ≤ j ∧ j < (n : Int) then m (.int (j + 1)) else if j = (n : Int) then none else m k
+  | _ => m k
+
 /-- executable wrapper: the map plus every key that was ever stored (to enumerate the support). -/
 structure STbl where
   m : SMap := SMap.empty
